@@ -25,7 +25,6 @@ import (
 	nullmetrics "github.com/attestantio/vouch/services/metrics/null"
 	"github.com/attestantio/vouch/util"
 	"github.com/holiman/uint256"
-	"github.com/rs/zerolog"
 	"github.com/shopspring/decimal"
 )
 
@@ -116,7 +115,7 @@ func (c09Domains) GenesisDomain(_ context.Context, t phase0.DomainType) (phase0.
 
 // c09New builds the strategy the way main does: through New.
 func c09New(ct *vstub.ChainTime, timeout time.Duration) *Service {
-	s, err := New(context.Background(), WithLogLevel(zerolog.Disabled), WithMonitor(&nullmetrics.Service{}),
+	s, err := New(context.Background(), WithLogLevel(vnd.LogLevel()), WithMonitor(&nullmetrics.Service{}),
 		WithSpecProvider(c09Spec{}), WithDomainProvider(c09Domains{}), WithChainTime(ct), WithTimeout(timeout))
 	vnd.Assert(err == nil && s != nil, "C09.new.accepted")
 	return s
